@@ -138,16 +138,22 @@ class Model:
 
 # -------------------------------------------------------------------------------- multi-writer feed
 def feed_writer(dataset_filler, writes: list[dict], attr_set: str, session: int, writer: int,
-                delays: list[float] | None = None) -> dict:
+                delays: list[float] | None = None, start_at: float | None = None) -> dict:
     """Module-level (picklable) feed function for `write_multiprocessing`.  Returns its own log."""
     import os  # pylint: disable=import-outside-toplevel
     import time  # pylint: disable=import-outside-toplevel
     log = []
     delays = delays or []
+    if start_at is not None:
+        # all writers start writing at the same instant (maximises contention on shared paths)
+        time.sleep(max(0.0, start_at - time.time()))
     if delays:
         time.sleep(delays[0])
+    t_first = None
     with dataset_filler as filler:
         for k, write in enumerate(writes):
+            if t_first is None:
+                t_first = time.time()
             if len(delays) > 1:
                 time.sleep(delays[1 + k % (len(delays) - 1)] if len(delays) > 2 else delays[1])
             ident = dsmod.make_id(write["split"], session, writer, k)
@@ -156,7 +162,8 @@ def feed_writer(dataset_filler, writes: list[dict], attr_set: str, session: int,
                 kwargs["custom_metadata"] = write["meta"]
             filler.write_example(values=good_values(ident, attr_set), split=write["split"], **kwargs)
             log.append([write["split"], ident])
-    return {"writer": writer, "pid": os.getpid(), "log": log, "t_end": time.time()}
+    return {"writer": writer, "pid": os.getpid(), "log": log, "t_end": time.time(),
+            "t_first": t_first}
 
 
 # -------------------------------------------------------------------------------- the runner
@@ -226,8 +233,10 @@ def run_history(root: Path, hist: dict, after_session: Callable | None = None,
                 returns = dataset.write_multiprocessing(
                     feed_writer=feed_writer,
                     custom_arguments=[(writes, attr_set, k, w) for w, writes in enumerate(writers)],
-                    custom_kwarguments=[{"delays": session.get("delays", {}).get(str(w))}
-                                        for w in range(len(writers))] if session.get("delays") else None,
+                    custom_kwarguments=[{"delays": session.get("delays", {}).get(str(w)),
+                                         "start_at": session.get("start_at")}
+                                        for w in range(len(writers))] if (session.get("delays") or
+                                                                          session.get("start_at")) else None,
                     consistency_check=session.get("consistency_check", True),
                     single_process=session.get("single_process", True))
                 rec.returns = returns
